@@ -13,21 +13,44 @@ def _dist(results):
     return dict(c)
 
 
+_CASE_CACHE = {}
+_HIT_COUNT = [0]
+
+
+def _case_index(outdir):
+    """cid -> Coq term of the case, built once per output directory"""
+    if outdir in _CASE_CACHE:
+        return _CASE_CACHE[outdir]
+    idx = {}
+    try:
+        for f in sorted(os.listdir(outdir)):
+            if f.startswith("cases_") and f.endswith(".v"):
+                txt = open(os.path.join(outdir, f)).read()
+                parts = txt.split("\nDefinition ")
+                for part in parts[1:]:
+                    name = part.split(" ", 1)[0]
+                    end = part.find("\nEval ")
+                    idx[name] = ("Definition " + (part if end < 0 else part[:end]))[:6000]
+                for line in txt.splitlines():
+                    if line.startswith("Eval ") and " run_r1cs " not in line:
+                        idx.setdefault("__line__" + str(len(idx)), line[:3000])
+    except OSError:
+        pass
+    _CASE_CACHE[outdir] = idx
+    return idx
+
+
 def _case_text(r, cid):
     """the Coq term of a case (the replayable input), from the generated case files"""
-    for f in sorted(os.listdir(r.outdir)):
-        if f.startswith("cases_") and f.endswith(".v"):
-            txt = open(os.path.join(r.outdir, f)).read()
-            m = re.search(r"Definition %s :.*?\n\s+\[[^\n]*\]\.\n" % re.escape(cid), txt, re.S)
-            if m:
-                return m.group(0)[:6000]
-            m = re.search(r"[^\n]*\b%s\b[^\n]*" % re.escape(cid), txt)
-    return None
+    if not getattr(r, "outdir", None):
+        return None
+    return _case_index(r.outdir).get(cid)
 
 
 def _hit(r, comp, streams, cid, what):
+    _HIT_COUNT[0] += 1
     return {"component": comp, "streams": streams, "case": cid, "what": what,
-            "summary": r.summary.get(cid, {}).get("line"), "input": _case_text(r, cid),
+            "summary": r.summary.get(cid, {}).get("line"), "input": _case_text(r, cid) if _HIT_COUNT[0] <= 40 else None,
             "impl_observables": {str(k): (v if isinstance(v, str) else " ".join(v)[:1500]) for k, v in (r.impl.get(cid) or {}).items()}}
 
 
